@@ -138,6 +138,7 @@ type EncOpts struct {
 
 // Encoder is the reference encoder: one Encoder = one stream.
 type Encoder struct {
+	floating []*Value // classes whose definition floats in front of some later value
 	Out      []byte
 	C        Chooser
 	O        EncOpts
@@ -214,8 +215,13 @@ func (e *Encoder) Value(v *Value) {
 		// first class can be hoisted only trivially (it is in front anyway when the
 		// top value is that object); offer the choice for every class.
 		for _, x := range pending {
-			if e.choose("def.place", []string{"def.inline", "def.hoist"}) == "def.hoist" {
+			switch e.choose("def.place", []string{"def.inline", "def.hoist", "def.float"}) {
+			case "def.hoist":
 				e.classDef(x)
+			case "def.float":
+				// value ::= class-def value: the definition may stand in front of ANY value
+				// between here and the first instance (a list element, a field value, a map key ...)
+				e.floating = append(e.floating, x)
 			}
 		}
 	}
@@ -267,6 +273,11 @@ func (e *Encoder) classDef(x *Value) int {
 }
 
 func (e *Encoder) value(v *Value) {
+	for len(e.floating) > 0 && e.choose("def.float.at", []string{"def.later", "def.here"}) == "def.here" {
+		x := e.floating[0]
+		e.floating = e.floating[1:]
+		e.classDef(x)
+	}
 	if v == nil {
 		e.Out = append(e.Out, 'N')
 		return
